@@ -1,5 +1,6 @@
 import ALV.Common.Json
 import ALV.Model.C06
+import ALV.Model.C06Hub
 import ALV.Spec.C06
 import ALV.Driver.C04
 namespace ALV.Driver.C06
@@ -26,6 +27,39 @@ open ALV.Driver.C04 (getMem varJson atomJson gainJson errJson)
                       "a0zero": null | index of the first zero of a Stream gain},
             "spec" : {"err":kind} | {"out":[…]}}
 -/
+
+/-! entry "hub": the tee / thub bookkeeping machine (`ALV.C06.Hub`)
+    srcs : [{"items":[q…], "raises":bool} …]        the sources wrapped by the leaf Streams
+    num, den : PE   with  PE = ["poly", [[power, C] …]] | ["mul", PE, PE] | ["divs", PE, C]
+                          C  = q | {"src":k}         (the SAME k twice = the same Stream object twice)
+    zero, xs
+    payload {"model": {"out":[…], "trace":[[pulls per source] per output], "final":[…], "end":"input"|"stop"|"raise",
+                       "at_call":[…]}} -/
+def getHC (j : Json) : Except String (ALV.C06.Hub.HC Rat) :=
+  match optField j "src" with
+  | some k => do pure (.s (.src (← getNat k)))
+  | none => do pure (.c (← getRat j))
+
+def getHPair (j : Json) : Except String (Int × ALV.C06.Hub.HC Rat) := do
+  match j with
+  | Json.arr [k, v] => pure (← getInt k, ← getHC v)
+  | _ => throw s!"expected [power, coeff], got {j.compress}"
+
+partial def getPE (j : Json) : Except String (ALV.C06.Hub.PE Rat) := do
+  match j with
+  | Json.arr [Json.str "poly", ps] => pure (.poly (← getList getHPair ps))
+  | Json.arr [Json.str "mul", a, b] => pure (.mul (← getPE a) (← getPE b))
+  | Json.arr [Json.str "divs", a, c] => pure (.divs (← getPE a) (← getHC c))
+  | _ => throw s!"bad polynomial expression {j.compress}"
+
+def getSrc (j : Json) : Except String (ALV.C06.Hub.Src Rat) := do
+  pure ⟨← getList getRat (← field j "items"), ← getBool (← field j "raises")⟩
+
+def hubJson (r : ALV.C06.Hub.Run Rat) : Json :=
+  Json.mkObj [("out", rats r.out), ("trace", arr nats r.trace), ("final", nats r.final),
+    ("end", Json.str (match r.ending with | .ok _ => "input" | .stop => "stop" | .raise => "raise")),
+    ("at_call", nats r.atCall)]
+
 
 def getCoef (j : Json) : Except String (Coef Rat) :=
   match optField j "s" with
@@ -226,6 +260,14 @@ def handle (entry : String) (j : Json) : Except String Json := do
     | .ok (.num _) => throw "expr: the tree evaluates to a number, not to a filter"
     | .ok (.filt f) =>
       pure <| Json.mkObj [("model", callJson f.num f.den mem zero xs), ("spec", specJson f.num f.den mem zero xs)]
+  | "hub" =>
+    let srcs ← getList getSrc (← field j "srcs")
+    let num ← getPE (← field j "num")
+    let den ← getPE (← field j "den")
+    let zero ← getRat (← field j "zero")
+    let xs ← getList getRat (← field j "xs")
+    let sf : Nat → ALV.C06.Hub.Src Rat := fun k => srcs.getD k ⟨[], false⟩
+    pure <| Json.mkObj [("model", hubJson (ALV.C06.Hub.callH sf srcs.length num den zero xs))]
   | _ => throw s!"C06: unknown entry {entry}"
 
 end ALV.Driver.C06
